@@ -187,6 +187,9 @@ impl World {
     /// cheap monitors: views, board, counters, pending, per-turn boards, hashes.
     /// Returns the decoded engine board.
     pub fn check_cheap(&mut self, ctx: &mut Ctx, eq: &mut EqTable) -> Result<Board, Stop> {
+        self.check_cheap_(ctx, eq, false)
+    }
+    fn check_cheap_(&mut self, ctx: &mut Ctx, eq: &mut EqTable, defer_pending: bool) -> Result<Board, Stop> {
         let own_board = match self.cause {
             Cause::Parsed => p(15),
             Cause::Place | Cause::Initial => p(9),
@@ -352,13 +355,19 @@ impl World {
         if pend != Pending::None {
             ctx.nontrivial(p(12), sfp);
         }
+        // A wrong push/pull status by itself belongs to C12, but what it does to the offered
+        // sequences belongs to C01: when the status is the ONLY disagreement, the full state check
+        // compares the lists against the status the rules require before the model is resynchronised.
+        if defer_pending && !ctx.findings.is_empty() && ctx.findings.iter().all(|f| f.monitor == "pending") && ctx.owned_finding().is_none() {
+            return Ok(board);
+        }
         self.settle(ctx)?;
         Ok(board)
     }
 
     /// all monitors of a visited state; returns the lists the driver chooses from
     pub fn check_state(&mut self, ctx: &mut Ctx, eq: &mut EqTable) -> Result<StateInfo, Stop> {
-        let board = self.check_cheap(ctx, eq)?;
+        let board = self.check_cheap_(ctx, eq, true)?;
         let side_e = self.side_of_engine();
         let norep = eng!("valid_actions_no_rep", self.gs.valid_actions_no_rep());
         let rep = eng!("valid_actions", self.gs.valid_actions());
